@@ -32,6 +32,8 @@ func main() {
 		os.Exit(cmdCheck(os.Args[2:]))
 	case "replay":
 		os.Exit(cmdReplay(os.Args[2:]))
+	case "native":
+		cmdNative(os.Args[2:])
 	case "manifest":
 		cmdManifest()
 	case "list":
@@ -48,17 +50,34 @@ func usage() {
 	os.Exit(2)
 }
 
-func loadProgram() (*sym.Program, error) {
+func loadProgram(patches ...sym.SourcePatch) (*sym.Program, error) {
 	ov, _, err := sym.BuildOverlay(repoDir, harnessDir)
 	if err != nil {
 		return nil, err
 	}
-	return sym.Load(repoDir, ov)
+	if err := sym.ApplyPatches(repoDir, ov, patches); err != nil {
+		return nil, err
+	}
+	p, err := sym.Load(repoDir, ov)
+	if err == nil {
+		p.Patches = patches
+	}
+	return p, err
 }
 
 func cmdRun(args []string) {
 	t0 := time.Now()
-	p, err := loadProgram()
+	var patches []sym.SourcePatch
+	for _, a := range args {
+		if strings.HasPrefix(a, "--prop=") {
+			for _, pr := range allProps() {
+				if pr.ID == strings.TrimPrefix(a, "--prop=") {
+					patches = pr.Patches
+				}
+			}
+		}
+	}
+	p, err := loadProgram(patches...)
 	if err != nil {
 		fmt.Println(err)
 		os.Exit(2)
@@ -75,6 +94,7 @@ func cmdRun(args []string) {
 			job.Preempt = 2
 		case strings.HasPrefix(a, "--primary="):
 			job.Primary = strings.TrimPrefix(a, "--primary=")
+		case strings.HasPrefix(a, "--prop="):
 		case strings.HasPrefix(a, "--random="):
 			job.RandomModels, _ = strconv.Atoi(strings.TrimPrefix(a, "--random="))
 		case strings.HasPrefix(a, "--feas="):
@@ -270,7 +290,10 @@ func cmdCheck(args []string) int {
 		return code
 	}
 
-	prog, err := loadProgram()
+	prog, err := loadProgram(prop.Patches...)
+	for _, sp := range prop.Patches {
+		ev.Assumptions = append(ev.Assumptions, "source scaled by overlay: "+sp.File+": `"+sp.Old+"` -> `"+sp.New+"` ("+sp.Why+")")
+	}
 	if err != nil {
 		fmt.Println("INCONCLUSIVE: cannot load /repo with harness overlay:", err)
 		inconclusive = append(inconclusive, "load: "+err.Error())
@@ -678,6 +701,11 @@ func replayViolation(runner *sym.NativeRunner, prog *sym.Program, v *sym.Violati
 		// schedule-dependent assertion: search seeded schedules under the cooperative native scheduler
 		sched = 2000
 	}
+	if v.Threads && v.Kind == "deadlock" {
+		// schedule-dependent deadlock: the cooperative scheduler reports a thread that spins forever on a mutex
+		sched = 300
+		to = 60 * time.Second
+	}
 	outs, err := runner.RunSched(pkg, []sym.NativeCase{{Harness: v.Harness, Args: v.Args, Values: sym.ValuesOf(v.Inputs)}}, race, to, sched)
 	if err != nil {
 		return false, "native run failed: " + firstLine(err.Error())
@@ -690,7 +718,7 @@ func replayViolation(runner *sym.NativeRunner, prog *sym.Program, v *sym.Violati
 	case "panic":
 		return strings.HasPrefix(o.Outcome, "panic:"), note
 	case "deadlock":
-		return o.Outcome == "timeout", note
+		return o.Outcome == "timeout" || strings.Contains(o.Outcome, "spun on a mutex nobody releases"), note
 	case "race":
 		return o.Outcome == "race", note
 	case "waitgroup":
@@ -853,4 +881,34 @@ func cmdManifest() {
 	}
 	data, _ := json.MarshalIndent(m, "", " ")
 	fmt.Println(string(data))
+}
+
+// cmdNative runs a harness natively with the given input values and prints go test's output (debugging aid).
+func cmdNative(args []string) {
+	prog, err := loadProgram()
+	if err != nil {
+		fmt.Println(err)
+		return
+	}
+	h := resolveHarness(prog, args[0])
+	var hargs []int64
+	var vals []string
+	seenSep := false
+	for _, a := range args[1:] {
+		if a == "--" {
+			seenSep = true
+			continue
+		}
+		if seenSep {
+			vals = append(vals, a)
+		} else {
+			v, _ := strconv.ParseInt(a, 10, 64)
+			hargs = append(hargs, v)
+		}
+	}
+	runner, _ := sym.NewNativeRunner(prog, harnessDir)
+	defer runner.Close()
+	runner.Verbose = true
+	outs, err := runner.Run(h[:strings.LastIndex(h, ".")], []sym.NativeCase{{Harness: h, Args: hargs, Values: vals}}, false, 60*time.Second)
+	fmt.Println(outs, err)
 }
